@@ -1,8 +1,9 @@
 """Path-sensitive view of a loop body (engine D, second half): the per-iteration transfer of value accumulators.
 
 The body of a natural loop with its back edges removed is a DAG; its acyclic paths from the body entry (the `Some` side of
-the driving `next()`, or the header for iterator-less loops) to the back edge are enumerated (bounded) and each is executed
-symbolically as straight-line code over engine-B terms: no merges, no solver.  The result of a path is (the branch facts on
+the driving `next()`, or the header for iterator-less loops) to the back edge are enumerated (bounded) and along each the reaching
+definitions are composed into engine-B provenance terms (a path-sensitive dataflow pass without merge points: nothing is
+executed, no values are modelled, no solver).  The result of a path is (the branch facts on
 its edges, the value of every tracked local at the back edge, expressed over the values at the start of the iteration).
 Rules classify paths by fact matchers (`x_i == x_j`, `x is Some`, `bit i of n set`) and compare the transfer per class with the
 expected step — whatever the spelling: two scalars or one tuple, `if let` or `match`, assignments in the arms or one assignment
@@ -48,7 +49,7 @@ def body_paths(fn, lp, starts):
 
 
 def exec_path(prog, fn, blocks, tracked, init=None):
-    """straight-line symbolic execution: env {local: term}; tracked locals start as ('loopvar', fn.key, l) (their value at the
+    """reaching definitions along one path, composed into terms: env {local: term}; tracked locals start as ('loopvar', fn.key, l) (their value at the
     start of the iteration).  Returns env at the end of the path."""
     env = {l: ("loopvar", fn.key, l) for l in tracked}
     if init:
